@@ -1286,8 +1286,9 @@ class Parser:
                     TokenType.STRING,
                     TokenType.NUMBER,
                     TokenType.LBRACKET,
-                ):
-                    # get propertyName() {} - it's a getter
+                ) or self._is_keyword():
+                    # get propertyName() {} - it's a getter (the name may be
+                    # a reserved word, like any other property name)
                     kind = "get"
                 elif self._check(TokenType.LPAREN):
                     # get() {} - method shorthand named "get"
@@ -1311,7 +1312,7 @@ class Parser:
                     TokenType.STRING,
                     TokenType.NUMBER,
                     TokenType.LBRACKET,
-                ):
+                ) or self._is_keyword():
                     kind = "set"
                 elif self._check(TokenType.LPAREN):
                     # set() {} - method shorthand named "set"
